@@ -557,5 +557,35 @@ func (w *c06World) sweep(honest *types.Block, r reporter) int {
 		n++
 		w.compare(m.name, pb, r)
 	}
+	n += w.evidenceLimit(honest, r)
+	return n
+}
+
+// evidenceLimit: the evidence size limit is a parameter of the validating state, not of the block: the honest block is validated
+// against copies of the state whose Evidence.MaxBytes is one below / equal to / one above the block's evidence size (the parameter
+// hash in the header covers only the block limits, so nothing else changes). Exact predicate: accepted iff size <= limit.
+func (w *c06World) evidenceLimit(honest *types.Block, r reporter) int {
+	if err, _ := c06Safe(func() error { return w.r2.exec.ValidateBlock(w.r2.state, honest) }); err != nil {
+		return 0 // judged by the sweep proper
+	}
+	size := honest.Evidence.ByteSize()
+	n := 0
+	for _, d := range []int64{-1, 0, 1} {
+		limit := size + d
+		if limit < 0 {
+			continue
+		}
+		st := w.r2.state.Copy()
+		st.ConsensusParams.Evidence.MaxBytes = limit
+		err, _ := c06Safe(func() error { return w.r2.exec.ValidateBlock(st, honest) })
+		n++
+		want := size <= limit
+		r.Outcome(fmt.Sprintf("evidence-limit: size%+d want-accept=%v got-accept=%v (evidence items %d)", d, want, err == nil, len(honest.Evidence.Evidence)))
+		if (err == nil) != want {
+			verb := map[bool]string{true: "accepts", false: "rejects"}[err == nil]
+			w.fail(fmt.Sprintf("state/validation.go:validateBlock:evidence-size-limit-not-exact:%s-at-size%+d", verb, -d),
+				fmt.Sprintf("cfg %s height %d: block with %d evidence item(s) of %d bytes validated against Evidence.MaxBytes=%d: %v", w.cfg.Name, honest.Height, len(honest.Evidence.Evidence), size, limit, err))
+		}
+	}
 	return n
 }
